@@ -126,6 +126,8 @@ pub enum E {
     Closure(String, T, Box<E>, Box<E>),
     /// `*(@e)` on a copyable value.
     SnapDesnap(Box<E>),
+    /// `{ x = e; x }`: assigns a mutable variable in the middle of an expression.
+    AssignBlock(String, Box<E>),
     TupleNew(Vec<E>),
     /// `arr.len()`
     Len(String),
@@ -246,6 +248,7 @@ impl E {
             E::IfLet(e, n, a, b) => format!("(if let Option::Some({n}) = {} {{ {} }} else {{ {} }})", e.render(p), a.render(p), b.render(p)),
             E::Closure(pn, pt, body, arg) => format!("({{ let cl_{pn} = |{pn}: {}| {}; cl_{pn}({}) }})", pt.render(), body.render(p), arg.render(p)),
             E::SnapDesnap(e) => format!("(*(@({})))", e.render(p)),
+            E::AssignBlock(n, e) => format!("({{ {n} = {}; {n} }})", e.render(p)),
             E::TupleNew(es) => {
                 if es.len() == 1 {
                     format!("({},)", es[0].render(p))
@@ -599,6 +602,11 @@ impl Eval<'_> {
                 r?
             }
             E::SnapDesnap(e) => self.expr(e, env)?,
+            E::AssignBlock(n, e) => {
+                let v = self.expr(e, env)?;
+                *lookup(env, n) = v.clone();
+                v
+            }
             E::TupleNew(es) => {
                 let mut out = vec![];
                 for x in es {
@@ -910,6 +918,8 @@ pub struct Gen<'a> {
     pub move_sites: Vec<(usize, String)>,
     /// Whether the innermost loop around the statements being generated is a `for`.
     nearest_loop_is_for: bool,
+    /// > 0 while generating an item of a tuple / fixed-size array literal (see `expr`).
+    in_aggregate_item: usize,
 }
 
 fn int_types() -> Vec<ITy> {
@@ -918,7 +928,7 @@ fn int_types() -> Vec<ITy> {
 
 impl<'a> Gen<'a> {
     pub fn new(rng: &'a mut Rng) -> Self {
-        Gen { rng, prog: Program { structs: vec![], enums: vec![], fns: vec![] }, counter: 0, move_sites: vec![], nearest_loop_is_for: false }
+        Gen { rng, prog: Program { structs: vec![], enums: vec![], fns: vec![] }, counter: 0, move_sites: vec![], nearest_loop_is_for: false, in_aggregate_item: 0 }
     }
 
     fn fresh(&mut self, p: &str) -> String {
@@ -1046,6 +1056,24 @@ impl<'a> Gen<'a> {
                 if let Some(args) = self.call_args(f, env, fidx, d) {
                     return E::Call(f, args);
                 }
+            }
+        }
+        // An assignment in the middle of an expression: operands, arguments and members are
+        // evaluated left to right, so an earlier read of the variable sees the old value. Not inside
+        // items of tuple / fixed-size array literals: there the compiler reads plain variables
+        // lazily, which is the recorded finding `value-differs:aggregate-item-read-after-reassign`
+        // (kept out of the random programs so that it cannot mask anything else).
+        if self.in_aggregate_item == 0 && matches!(t, T::Int(_) | T::Felt | T::Bool) && self.rng.chance(1, 14) {
+            let c: Vec<String> = env.iter().filter(|v| v.mutable && !v.moved && !v.snap && !v.pinned && &v.ty == t).map(|v| v.name.clone()).collect();
+            if !c.is_empty() {
+                let n = self.rng.pick(&c).clone();
+                let inner = self.expr(t, env, fidx, d.min(1));
+                let assign = E::AssignBlock(n.clone(), Box::new(inner));
+                // Usually right after a read of the same variable.
+                return match t {
+                    T::Int(_) | T::Felt if self.rng.chance(2, 3) => E::Bin(*self.rng.pick(&["+", "-", "*"]), t.clone(), Box::new(E::Var(n)), Box::new(assign)),
+                    _ => assign,
+                };
             }
         }
         if matches!(t, T::Int(_) | T::Felt | T::Bool) && self.rng.chance(1, 12) {
@@ -1244,7 +1272,12 @@ impl<'a> Gen<'a> {
             T::Opt(it) => {
                 if self.rng.chance(1, 4) { E::None_((**it).clone()) } else { E::Some_(Box::new(self.expr(it, env, fidx, d))) }
             }
-            T::Tuple(ts) => E::TupleNew(ts.iter().map(|tt| self.expr(tt, env, fidx, d)).collect()),
+            T::Tuple(ts) => {
+                self.in_aggregate_item += 1;
+                let items = ts.iter().map(|tt| self.expr(tt, env, fidx, d)).collect();
+                self.in_aggregate_item -= 1;
+                E::TupleNew(items)
+            }
             T::Arr(it) => {
                 if **it == T::Felt && self.rng.chance(1, 2) {
                     let st = self.value_type(1);
@@ -1438,7 +1471,9 @@ impl<'a> Gen<'a> {
                     // Fixed-size array literal taken apart again.
                     let t = self.scalar_type();
                     let n = 2 + self.rng.below(2);
+                    self.in_aggregate_item += 1;
                     let es: Vec<E> = (0..n).map(|_| self.expr(&t, env, fidx, d)).collect();
+                    self.in_aggregate_item -= 1;
                     let names: Vec<String> = (0..n).map(|_| self.fresh("q")).collect();
                     out.push(S::LetFixed(names.clone(), es));
                     for name in names {
